@@ -734,6 +734,10 @@ func (v *FV) loopHeader(fr *Frame, li *loopInfo, st *State) *State {
 	e.parent = st.snap.clone()
 	e.mod = mod
 	ns.snap = &Snapshot{ep: e, over: map[string]Term{}}
+	if mod == nil {
+		// the loop body calls foreign code: everything is havocked except what it cannot reach
+		v.preserveAcrossHavocIn(st.snap, ns.snap, li.body)
+	}
 	for _, instr := range li.header.Instrs {
 		phi, ok := instr.(*ssa.Phi)
 		if !ok {
@@ -923,7 +927,7 @@ func (v *FV) execInstr(fr *Frame, st *State, instr ssa.Instruction) {
 			l := &Loc{kind: 2, arr: v.cellArray(elem), ref: ref, ty: elem}
 			v.store(st, l, v.zero(elem))
 			if cellIsPrivate(in) || cellIsFinal(in) {
-				v.protectedCells = append(v.protectedCells, protectedCell{l.arr, ref})
+				v.protectedCells = append(v.protectedCells, protectedCell{arr: l.arr, ref: ref, alloc: in, final: cellIsFinal(in)})
 			}
 		}
 	case *ssa.FieldAddr:
